@@ -27,7 +27,7 @@ PROPS = {
         "assumptions": ["extension values are read from the Debug form of the private structs (Decimal{value}, IPAddr{addr,prefix}, DateTime{epoch}, Duration{ms})"],
     },
     "C13": {
-        "streams": [("c13", 1200, 60000)],
+        "streams": [("c13", 2000, 60000)],
         "definitional": False,
         "rule": "1-6 policies from c01's generator (scope forms incl. is/==/in, template links, forced sat/unsat/error and random typed conditions) x "
                 "requests with every subset of {principal, resource, context} unknown (typed/untyped entries, missing context, context attributes that are "
